@@ -78,7 +78,9 @@ def diag_part(ctx, exe, mexe):
     WIDE = [0x4E2D, 0x1F600, 32, 9, 98]           # 中 (width 2), 4-byte emoji (width 2), space, tab, b
     texts = [([97, 13, 10, 98], 0), ([97, 13, 10, 98, 99], 0), ([97, 10], 0), ([97, 13, 10], 0), ([], 0),
              ([97, 13, 10, 98, 13, 10, 99], 0), ([97, 10, 10, 98, 10], 0), ([97, 13], 0), ([97, 10], 4),
-             ([10] * 11 + [97, 98, 10, 99], 3)]
+             ([10] * 11 + [97, 98, 10, 99], 3),
+             # more than 64 line starts (every boundary span: the model's cost allows one short text of that kind)
+             ([10] * 64 + [97, 10, 98], 0)]
     maxlen = ctx.n(5, 6)
     for n in range(0, maxlen + 1):
         for t in itertools.product(ALPHA, repeat=n):
@@ -104,6 +106,22 @@ def diag_part(ctx, exe, mexe):
         for st in starts:
             later = [b for b in bs if b >= st]
             spans.append((st, rng.choice(later[:4])))
+        gcases.append((t, spans))
+    # long texts (65..120 lines): spans that begin at line starts / line ends / random boundaries
+    for _ in range(ctx.n(120, 1200)):
+        style = rng.choice(["lf", "lf", "crlf", "mixed"])
+        t = long_text(rng, rng.choice([65, 66, 70, 90, 120]), style, rng.choice([1, 2, 3]), rng.random() < 0.5, [97, 233, 0x4E2D, 98])
+        bs, off, marks = [0], 0, [0]
+        for cp in t:
+            off += len(chr(cp).encode())
+            bs.append(off)
+            if cp == 10:
+                marks += [bs[-2], bs[-1]]
+        starts = sorted(rng.choice(marks if rng.random() < 0.8 else bs) for _ in range(rng.randint(1, 3)))
+        spans = []
+        for st in starts:
+            later = [b for b in bs if b >= st]
+            spans.append((st, rng.choice(later[:6])))
         gcases.append((t, spans))
     def gl(flags, t, spans):
         return "G%s %s ; %s" % (flags, " ".join(map(str, t)), " ".join("%d %d" % sp for sp in spans))
@@ -161,7 +179,8 @@ def diag_part(ctx, exe, mexe):
     ctx.coverage["diag_rule"] = ("SpannedDiagnosticFormatter over the whole text: every text over {a,é,♠,\\n,\\r} up to length %d "
                                  "x every boundary span (underline_span_with_text) and every boundary (file_location_msg), random "
                                  "longer texts incl. width-2 and 4-byte chars with prefixes of 0/3/4 bytes, %d random format_warning "
-                                 "cases (1-3 spans with non-decreasing starts); release and debug (overflow-checked) harness builds; "
+                                 "cases (1-3 spans with non-decreasing starts; 120 (quick) of them on texts of 65..120 lines, spans beginning at line starts / ends), "
+                                 "one 67-line text with every boundary span; release and debug (overflow-checked) harness builds; "
                                  "compared entry by entry with the repaired mirror, deviations tolerated only when DIAG_FIXED is off "
                                  "and they equal the pinned mirror" % (maxlen, ng))
     ctx.assumptions += ["UnicodeWidthStr::width (unicode-width 0.1.14) is abstract in the theorems; the correspondence renders with "
@@ -254,6 +273,9 @@ def errpp_part(ctx, exe, mexe):
     for _ in range(ctx.n(600, 6000)):
         n = rng.randint(6, 24)
         texts.append([rng.choice(ALPHA + EXTRA + [10, 10]) for _ in range(n)])
+    # more than 64 line starts (every boundary span is asked: short lines)
+    for nl, style in ((65, "lf"), (66, "lf"), (70, "crlf"), (80, "mixed"), (100, "lf"), (129, "lf"))[:ctx.n(6, 6)]:
+        texts.append(long_text(rng, nl, style, 1, nl % 2 == 0, [97, 233]))
     lines = ["E " + " ".join(map(str, t)) for t in texts]
     impl = core.run_lines([exe], lines)
     model = core.run_lines([mexe], lines)
@@ -305,6 +327,177 @@ def errpp_part(ctx, exe, mexe):
                                   "every boundary span a <= b: pp of a lexing error of that span (direct and through parse_map) and of a "
                                   "parse error at a lexeme of that span (no recovery), lexer built with LRNonStreamingLexer::new; compared "
                                   "with the message the extracted model prints for the span's start" % (maxlen, ctx.n(600, 6000)))
+
+
+# ---- long texts: more than 64 line starts (a size-dependent code path of NewlineCache must give the same answers) ----
+
+def long_text(rng, nlines, style, maxlen, trailing, chars):
+    """nlines lines of 0..maxlen characters; style: 'lf' | 'crlf' | 'mixed' (also a bare CR now and then)"""
+    t = []
+    for i in range(nlines):
+        t += [rng.choice(chars) for _ in range(rng.randint(0, maxlen))]
+        if i == nlines - 1 and not trailing:
+            break
+        if style == "lf":
+            t.append(10)
+        elif style == "crlf":
+            t += [13, 10]
+        else:
+            t += rng.choice([[10], [10], [13, 10], [13, 10], [13, 13, 10]])
+    return t
+
+
+def long_texts(rng, n, budget):
+    """texts with 63..300 lines of at most `budget` code points (the extracted model answers EVERY boundary span
+    of a T line: its cost grows with the cube of the length)"""
+    out = []
+    # around the number of line starts at which a cache may change its search: 63..67 lines, with / without trailing newline
+    for nl in (63, 64, 65, 66, 67, 70):
+        for trailing in (False, True):
+            out.append(("lf", long_text(rng, nl, "lf", 1, trailing, [97, 233])))
+    out.append(("lf-empty-lines", [10] * 65))
+    out.append(("lf-empty-lines", [10] * 130 + [97]))
+    out.append(("crlf", long_text(rng, 66, "crlf", 1, True, [97, 9824])))
+    out.append(("lf", long_text(rng, 300, "lf", 0, True, [97])[:330]))
+    out.append(("lf", long_text(rng, 290, "lf", 1, False, [97, 233] + [10] * 6)[:330]))
+    while len(out) < n:
+        style = rng.choice(["lf", "lf", "crlf", "mixed", "mixed"])
+        nl = rng.choice([65, 66, 70, 80, 100, 128, 129, 150, 200, 250])
+        per = 2 if style == "crlf" else 1.4 if style == "mixed" else 1
+        room = budget / nl - per                      # characters per line the budget leaves
+        if room < 0:
+            continue
+        maxlen = min(3, int(2 * room))
+        t = long_text(rng, nl, style, maxlen, rng.random() < 0.5, [97, 97, 233, 9824, 0x1F600, 88, 98])
+        if len(t) > budget or t.count(10) < 64:
+            continue
+        out.append((style, t))
+    return out
+
+
+def long_queries(rng, text):
+    """boundary spans to ask about: every line start, every line end (the offset of the newline, of its CR, of the
+    character before), random boundaries; each alone, paired with its neighbours in that list and with random others"""
+    bs, off = [0], 0
+    for cp in text:
+        off += len(chr(cp).encode())
+        bs.append(off)
+    marks = {0, bs[-1]}
+    for i, cp in enumerate(text):
+        if cp == 10:
+            marks |= {bs[i], bs[i + 1]}
+            if i > 0:
+                marks.add(bs[i - 1])
+    marks |= set(rng.choice(bs) for _ in range(24))
+    marks = sorted(marks)
+    pairs = set()
+    for i, m in enumerate(marks):
+        for j in (0, 1, 2, 5):
+            if i + j < len(marks):
+                pairs.add((m, marks[i + j]))
+    for _ in range(60):
+        a, b = sorted((rng.choice(marks), rng.choice(bs)))
+        pairs.add((a, b))
+    return sorted(pairs)
+
+
+def entries_of(res):
+    d = {}
+    for x in res.split(" | "):
+        f = x.split()
+        if not f:
+            continue
+        if f[0] in ("B", "Y", "L"):
+            d[(f[0], f[1])] = f[2:]
+        elif f[0] in ("S", "LC", "SL"):
+            d[(f[0], f[1], f[2])] = f[3:]
+        elif f[0] == "PP":
+            d[(f[0], f[1])] = f[2:]
+        else:
+            d[(f[0],)] = f[1:]
+    return d
+
+
+def long_part(ctx, exe, mexe):
+    """texts of 63..300 lines (LF, CRLF, mixed; lines of 0..3 characters incl. multi-byte; with / without trailing
+    newline; random chunkings): the four NewlineCache queries + NonStreamingLexer::line_col / span_lines_str +
+    LexParseError::pp, at every byte offset (line, line byte), every boundary (line, column) and at spans between
+    line starts / line ends / random boundaries, against the extracted model's answers for the same chunks."""
+    rng = ctx.rng
+    budget = 260
+    texts = long_texts(rng, ctx.n(40, 400), budget)
+    cases = []
+    for style, t in texts:
+        k = rng.choice([0, 1, 3, 6, 12])
+        cuts = sorted(rng.sample(range(len(t) + 1), min(len(t) + 1, k)))
+        # a cut between CR and LF when there is one
+        crlf = [i + 1 for i in range(len(t) - 1) if t[i] == 13 and t[i + 1] == 10]
+        if crlf and k:
+            cuts = sorted(set(cuts + [rng.choice(crlf)]))
+        ch, prev = [], 0
+        for c in cuts:
+            ch.append(t[prev:c])
+            prev = c
+        ch.append(t[prev:])
+        cases.append((style, t, ch, long_queries(rng, t)))
+    tl = [line_of(ch) for _, _, ch, _ in cases]
+    ql = ["Q" + l[1:] + " @ " + " ".join("%d %d" % p for p in q) for l, (_, _, _, q) in zip(tl, cases)]
+    impl = core.run_lines([exe], ql, shards=min(16, len(ql)))
+    model = core.run_lines([mexe], tl, shards=min(16, len(tl)))
+    nbad = nq = 0
+    for (style, t, ch, q), l, a, b in zip(cases, ql, impl, model):
+        tb = "".join(map(chr, t)).encode()
+        nlines = t.count(10) + 1
+        ctx.case(l, True, {"lines": nlines, "newlines": style, "chunks": len(ch), "spans_asked": len(q), "result": a[:120]})
+        ctx.count("long_%s" % style)
+        ctx.count("long_lines_%s" % ("63-64" if nlines < 65 else "65-99" if nlines < 100 else "100-199" if nlines < 200 else "200-301"))
+        ea, eb = entries_of(a), entries_of(b)
+        if not b.startswith("N ") or ("N",) not in ea or ea.get(("N",)) != eb.get(("N",)):
+            nbad += 1
+            ctx.violation({"text": t, "chunks": ch, "impl": a[:300], "model": b[:300], "note": "no comparable answers",
+                           "replay_cmd": "echo '%s' | .work/target/release/c19" % l[:100000]}, no_input=not a.startswith("FEEDPANIC"))
+            continue
+        L = {int(k[1]): tuple(v) for k, v in eb.items() if k[0] == "L"}
+        bad = []
+        for k, v in ea.items():
+            nq += 1
+            if k[0] in ("B", "Y", "L", "S"):
+                if eb.get(k) != v:
+                    bad.append({"query": {"B": "byte_to_line_num", "Y": "byte_to_line_byte", "L": "byte_to_line_num_and_col_num",
+                                          "S": "span_line_bytes"}[k[0]], "at": list(map(int, k[1:])), "impl": " ".join(v),
+                                "model": " ".join(eb.get(k, ["(no answer)"]))})
+            elif k[0] == "LC":
+                s_, e_ = int(k[1]), int(k[2])
+                exp = list(L.get(s_, ("?", "?"))) + list(L.get(e_, ("?", "?")))
+                if v != exp:
+                    bad.append({"query": "NonStreamingLexer::line_col", "at": [s_, e_], "impl": " ".join(v), "model": " ".join(exp)})
+            elif k[0] == "SL":
+                se = eb.get(("S", k[1], k[2]))
+                if se and len(se) == 2:
+                    st, en = int(se[0]), int(se[1])
+                    if v != ([tb[st:en].hex()] if en > st else []):
+                        bad.append({"query": "NonStreamingLexer::span_lines_str", "at": [int(k[1]), int(k[2])],
+                                    "impl": " ".join(v), "model": tb[st:en].hex()})
+            elif k[0] == "PP":
+                exp = "Lexing error at line %s column %s." % L.get(int(k[1]), ("?", "?"))
+                if v != [exp.encode().hex()]:
+                    bad.append({"query": "LexParseError::pp of the lexing error at", "at": [int(k[1])], "impl": dec("x" + v[0]) if v else "", "model": exp})
+        if bad:
+            nbad += 1
+            if nbad <= 6:
+                ctx.violation({"text": t, "text_str": "".join(map(chr, t)), "lines": nlines, "chunks": ch, "differences": bad[:6],
+                               "n_differences": len(bad),
+                               "authority": "C19_line_num_spec, C19_line_col_spec, C19_span_lines_spec (model = spec for all inputs)",
+                               "replay_cmd": "echo '%s' | .work/target/release/c19" % l})
+    ctx.oblige(nbad == 0, "correspondence on long texts")
+    ctx.coverage["long_texts"] = len(cases)
+    ctx.coverage["long_queries"] = nq
+    ctx.coverage["long_rule"] = ("%d texts of 63..300 lines (at most %d code points, two 300-line texts 330: the model answers every boundary span), LF / CRLF / mixed "
+                                 "(incl. CR CR LF) line ends, lines of 0..3 characters over {a,é,♠,4-byte,X,b}, with and without trailing "
+                                 "newline, 0..13 random chunk cuts (one between a CR and its LF); byte_to_line_num / byte_to_line_byte at "
+                                 "every byte offset and one past the end, line/column at every boundary, span_line_bytes + lexer-level "
+                                 "line_col / span_lines_str at spans between every line start, line end, their neighbours and random "
+                                 "boundaries, pp of the lexing errors" % (len(cases), budget))
 
 
 def run(ctx):
@@ -395,6 +588,7 @@ def run(ctx):
                            "authority": "C19_line_num_spec, C19_line_col_spec, C19_span_lines_spec (model = spec for all inputs)",
                            "replay_cmd": "echo '%s' | .work/target/release/c19" % l})
     ctx.oblige(ndiff == 0, "correspondence")
+    long_part(ctx, exe, mexe)
     diag_part(ctx, exe, mexe)
     conflicts_part(ctx, exe, mexe)
     errpp_part(ctx, exe, mexe)
